@@ -406,7 +406,7 @@ def run(ctx):
         else:
             hiers = fixed + [gen_hierarchy(rnd, ctx) for _ in range(60)]
             names = ALL_NAMES
-            nhist, maxlen, group, nstaged = 10000, 30, 6, 5000
+            nhist, maxlen, group, nstaged = 8000, 30, 6, 3000
             ctx.cov["exhaustive"] = True
         cases = corpus() + probe_cases(hiers, names, group, ctx, rnd)
         pool = fixed + [gen_hierarchy(rnd, ctx) for _ in range(60 if ctx.tier == "quick" else 600)]
